@@ -48,7 +48,7 @@ class Driver:
         if len(self.samples) < 3 and info is not None and ok:
             self.samples.append(_js(info))
         if not ok:
-            fk = '%s/%s' % (self.oid, fail_key or 'case')
+            fk = fail_key or 'case'
             self.fails.setdefault(fk, [])
             if len(self.fails[fk]) < self.max_fail_report:
                 self.fails[fk].append(_js(info))
@@ -74,11 +74,12 @@ class Driver:
             return out
         first = True
         for fk, infos in self.fails.items():
-            out.append(R(self.oid if first and len(self.fails) == 1 else fk, 'bounded', 'failed', backend='native', seconds=dt,
+            # finding key: property + failure class (independent of the task shard that happened to hit it)
+            out.append(R('%s/%s' % (self.oid, fk), 'bounded', 'failed', backend='native', seconds=dt,
                          detail='%d failing case(s) recorded for %s; first: %s' % (len(infos), fk, str(infos[0])[:1500]),
                          witness=dict(replayed=True, cases=infos), evals=self.evals if first else 0,
                          nontrivial=len(self.keys) if first else 0, samples=self.samples if first else [],
-                         bound=self.bound, finding_key=fk))
+                         bound=self.bound, finding_key='%s/bounded/%s' % (self.pid, fk)))
             first = False
         return out
 
